@@ -65,7 +65,10 @@ func runIDs(x *X) {
 		"", "abc-123", "in  ner", strings.Repeat("L", 300), "ünï-cödé", "a b;c=d", "0",
 		// bytes that are legal in a field value and not "printable text": Latin-1, invalid UTF-8, an inner tab,
 		// no-break and zero-width spaces
-		"caf\xe9-42", "\xff\xfe\x80", "tab\tinside", "nb\u00a0sp", "zw\u200bsp"}
+		"caf\xe9-42", "\xff\xfe\x80", "tab\tinside", "nb\u00a0sp", "zw\u200bsp",
+		// white space by Unicode's book that is not white space by HTTP's (the header parser leaves it alone):
+		// a trailing no-break space, a leading em space, a trailing NEL
+		"trail-nbsp\u00a0", "\u2003lead-emsp", "trail-nel\u0085"}
 	type result struct {
 		inReq, inTrace   string // what the client sent
 		hReq, hTrace     string // what the inner handler saw on the request
@@ -154,7 +157,7 @@ func runIDs(x *X) {
 			x.Violate("C16", "C16/backend-client-mismatch{"+kind+"}", "handler saw %s %q but the client got %q", kind, h, out)
 		}
 		if strings.TrimSpace(in) != "" {
-			if out != in && out != strings.TrimSpace(in) {
+			if out != in {
 				x.Violate("C16", "C16/client-id-altered{"+kind+"}", "client supplied %s %q and got back %q", kind, in, out)
 			}
 		} else {
